@@ -91,6 +91,15 @@ def generate(st):
             T = lo + (hi - lo) / 2 if hi > lo else lo
         return {'op': 'read', 'T': _iso(T), 'what': g.choice([-1, -1, -1, 0]), 'kind': k}
 
+    if sw.random() < 0.12 and not cfg['stamp_offset']:
+        # the store starts from a plain (un-stamped) old series: bi_merge(old, new, asof=now, existing_data=<earlier stamp>)
+        back = g.choice([1, 3600, 86400, 40 * 86400])
+        ops.append({'op': 'start_from_plain', 'old': version(), 'new': version(), 'back': back})
+        stamps.append(now - datetime.timedelta(seconds=back))
+        stamps.append(now)
+        n_pub += 2
+        ops.append({'op': 'tick', 'd': 1})
+        now = now + datetime.timedelta(seconds=1)
     for _ in range(cfg['n_ops']):
         r = g.random()
         if r < 0.25 or not stamps and r < 0.5:
@@ -372,6 +381,24 @@ def execute(trace, ctx=None):
                 store = new_store
                 after_publication(stamp)
                 _check_store(store, model, k)
+            elif kind == 'start_from_plain':
+                if store is not None:
+                    continue
+                olds = [(i, dec(v)) for i, v in op['old'] if i < n]
+                news = [(i, dec(v)) for i, v in op['new'] if i < n]
+                if not olds or not news:
+                    continue
+                t1 = SimClock.now
+                t0 = t1 - datetime.timedelta(seconds=op['back'])
+                so = series([[i, v] for i, v in op['old'] if i < n])
+                sn = series([[i, v] for i, v in op['new'] if i < n])
+                store = lib(lambda: bi_merge(so, sn, asof=t1, existing_data=t0), 'bi_merge(plain old, plain new, asof=t1, existing_data=t0)')
+                res.probe('store-started-from-plain-old-data')
+                for stamp, vals, ser in ((t0, olds, so), (t1, news, sn)):
+                    model.publish(stamp, vals)
+                    messages.append((lib(lambda ser=ser, stamp=stamp: Bi(ser, stamp), 'Bi'), stamp, vals))
+                    after_publication(stamp)
+                _check_store(store, model, k)
             elif kind == 'publish_many':
                 stamp = SimClock.now + datetime.timedelta(seconds=cfg.get('stamp_offset', 0))
                 versions = []
@@ -566,6 +593,8 @@ def shrink_candidates(trace):
 def size(trace):
     s = len(trace['ops']) * 20 + trace['cfg']['n_dates']
     for op in trace['ops']:
+        if 'old' in op:
+            s += 3 * (len(op['old']) + len(op['new']))
         if 'versions' in op:
             s += sum(5 + 3 * len(vs) for vs in op['versions'])
         if 'vals' in op:
@@ -586,7 +615,7 @@ def signature(trace, violation):
 PROBES = ['same-stamp-publication', 'same-stamp-override', 'nan-does-not-override', 'revert-to-earlier-value',
           'date-first-published-later', 'store>=17-rows', 'implicit-now-stamp', 'read-strictly-between-stamps',
           'read-before-first-stamp', 'redelivery-of-version-in-store', 'redelivery-of-overridden-version',
-          'bump-stamp-capped-at-now', 'named-series', 'several-versions-merged-in-one-call', 'stamp-ahead-of-clock', 'named-index', 'caller-owned-list-of-plain-series', 'same-list-object-published-again']
+          'bump-stamp-capped-at-now', 'named-series', 'several-versions-merged-in-one-call', 'stamp-ahead-of-clock', 'named-index', 'caller-owned-list-of-plain-series', 'same-list-object-published-again', 'store-started-from-plain-old-data']
 TIERS = {'quick': {'runs': 4000, 'wallcap': 50}, 'thorough': {'runs': 150000, 'wallcap': 800}}
 COMPONENTS = {
     'real': ['pyg_base._bitemporal Bi / bi_merge / bi_read', 'pyg_base._dates.dt (stamp parsing, "now")', 'pandas concat/sort/groupby'],
